@@ -7,6 +7,20 @@ def succs(fn, bi, unwind=False):
     if k == 'goto':
         return [t['t']]
     if k == 'switch':
+        d = t['d']
+        pl = d.get('copy') or d.get('move')
+        if pl is not None and not pl['p']:
+            # `_n = const false; switchInt(move _n)` within the block
+            for st in reversed(fn['blocks'][bi]['stmts']):
+                if 'lhs' in st and st['lhs']['l'] == pl['l'] and not st['lhs']['p']:
+                    a = st['rv'].get('a') if st['rv']['k'] == 'use' else None
+                    if a and a.get('const') and 'bits' in a:
+                        d = a
+                    break
+        if d.get('const') and 'bits' in d:
+            # constant condition (`if false { loop {} }` in macro expansions): only the matching edge exists
+            hit = [a[1] for a in t['arms'] if int(a[0]) == int(d['bits'])]
+            return [hit[0] if hit else t['otherwise']]
         r = [a[1] for a in t['arms']]
         r.append(t['otherwise'])
         # dedupe, keep order
